@@ -379,3 +379,94 @@ axiom('rowargmax.arm', forall([A_, i_, s_, z3.Const('a', Arm)],
                                                            mat_at(A_, i_, iat(rowargmax(A_), i_)),
                                                            iat(rowargmax(A_), i_) <= T.apos(s_, z3.Const('a', Arm))))),
                               [(iat(rowargmax(A_), i_), T.amem(s_, z3.Const('a', Arm)))]), ['rowargmax'], 'numpy')
+
+
+# ---- concatenation, flattening, partial sorting, choice
+mvstack = F('mvstack', Mat, Mat, Mat)
+axiom('mvstack.shape', forall([A_, B_], z3.And(mrows(mvstack(A_, B_)) == mrows(A_) + mrows(B_),
+                                               mcols(mvstack(A_, B_)) == mcols(A_)), [mvstack(A_, B_)]), ['mvstack'], 'numpy')
+axiom('mvstack.row', forall([A_, B_, i_], mrow(mvstack(A_, B_), i_) == z3.If(i_ < mrows(A_), mrow(A_, i_), mrow(B_, i_ - mrows(A_))),
+                            [mrow(mvstack(A_, B_), i_)]), ['mvstack'], 'numpy')
+
+
+@reg('np.concatenate')
+def _concatenate(lib, run, recv, args, kw):
+    t = args[0]
+    if not (isinstance(t, TupleV) and len(t.items) == 2):
+        raise Unsupported('np.concatenate of other than two arrays')
+    a, b = t.items
+    if isinstance(a, NoneV) or isinstance(b, NoneV):
+        raise PyRaise('ValueError', 'np.concatenate: zero-dimensional arrays cannot be concatenated')
+    if isinstance(a, MatV) and isinstance(b, MatV):
+        _shape_guard(run, mcols(a.term) == mcols(b.term),
+                     'np.concatenate: all the input array dimensions except for the concatenation axis must match')
+        return MatV(mvstack(a.term, b.term))
+    sa, sb = lib.as_seq(run, a), lib.as_seq(run, b)
+    if sa is not None and sb is not None and sa.kind == sb.kind and sa.kind in ('A', 'R'):
+        fn = {'A': T.aconcat, 'R': T.rconcat}[sa.kind]
+        return SeqV(sa.kind, fn(sa.term, sb.term))
+    if isinstance(a, MatV) != isinstance(b, MatV):
+        raise PyRaise('ValueError', 'np.concatenate: all the input arrays must have same number of dimensions')
+    raise Unsupported('np.concatenate(%r, %r)' % (a, b))
+
+
+@reg('mat.reshape')
+def _mreshape(lib, run, recv, args, kw):
+    if len(args) == 1 and isinstance(args[0], Num) and args[0].concrete() == -1:
+        if run.entails(mcols(recv.term) == 1):
+            return SeqV('R', _mcol(recv.term, 0))
+        if run.entails(mrows(recv.term) == 1):
+            return SeqV('R', mrow(recv.term, 0))
+        raise Unsupported('flattening a general matrix')
+    raise Unsupported('matrix reshape')
+
+
+argpart = F('argpartition', RSeq, Int, ISeq)      # np.argpartition(v, kth)
+axiom('argpartition.len', forall([v_, k_], ilen(argpart(v_, k_)) == T.rlen(v_), [argpart(v_, k_)]), ['argpartition'], 'numpy')
+# A4: the first kth+1 positions hold indices whose values are <= the values at all later positions (any tie-break)
+j_ = z3.Int('j')
+axiom('argpartition.partition', forall([v_, k_, i_, j_], z3.Implies(z3.And(0 <= i_, i_ <= k_, k_ < j_, j_ < T.rlen(v_)),
+                                                                   T.rat(v_, iat(argpart(v_, k_), i_)) <=
+                                                                   T.rat(v_, iat(argpart(v_, k_), j_))),
+                                       [(iat(argpart(v_, k_), i_), iat(argpart(v_, k_), j_))]), ['argpartition'], 'numpy')
+axiom('argpartition.range', forall([v_, k_, i_], z3.Implies(z3.And(0 <= i_, i_ < T.rlen(v_)),
+                                                            z3.And(0 <= iat(argpart(v_, k_), i_),
+                                                                   iat(argpart(v_, k_), i_) < T.rlen(v_))),
+                                   [iat(argpart(v_, k_), i_)]), ['argpartition'], 'numpy')
+islice = F('islice', ISeq, Int, Int, ISeq)
+lo_, hi_ = z3.Ints('lo hi')
+axiom('islice.len', forall([u_, lo_, hi_], z3.Implies(z3.And(0 <= lo_, lo_ <= hi_, hi_ <= ilen(u_)),
+                                                      ilen(islice(u_, lo_, hi_)) == hi_ - lo_), [islice(u_, lo_, hi_)]),
+      ['islice'], 'numpy')
+axiom('islice.at', forall([u_, lo_, hi_, i_], iat(islice(u_, lo_, hi_), i_) == iat(u_, lo_ + i_),
+                          [iat(islice(u_, lo_, hi_), i_)]), ['islice'], 'numpy')
+
+
+@reg('np.argpartition')
+def _argpartition(lib, run, recv, args, kw):
+    v, kth = args[0], args[1]
+    if isinstance(v, SeqV) and v.kind == 'R':
+        k = intterm(kth)
+        if not run.spec_mode:
+            if run.branch(z3.Not(z3.And(0 <= k, k < T.rlen(v.term)))):
+                raise PyRaise('ValueError', 'np.argpartition: kth out of bounds')
+        return SeqV('I', argpart(v.term, k))
+    raise Unsupported('np.argpartition arguments')
+
+# ---- general rows of a scatter, and the inverse of where()
+rank = F('rank', BSeq, Int, Int)              # position of index i among the true entries of the mask
+axiom('rank.def', forall([m_, i_], z3.Implies(z3.And(0 <= i_, i_ < T.blen(m_), T.bat(m_, i_)),
+                                              z3.And(0 <= rank(m_, i_), rank(m_, i_) < T.bcnt(m_),
+                                                     iat(where(m_), rank(m_, i_)) == i_)),
+                         [rank(m_, i_)]), ['rank'], 'numpy')
+axiom('where.rank', forall([m_, k_], z3.Implies(z3.And(0 <= k_, k_ < T.bcnt(m_)), rank(m_, iat(where(m_), k_)) == k_),
+                           [iat(where(m_), k_)]), ['where'], 'numpy')
+# E[idx] = V with idx = where(mask): rows selected by the mask come from V in order, the others keep their value
+axiom('mscatter.where.in', forall([A_, m_, B_, i_],
+                                  z3.Implies(z3.And(0 <= i_, i_ < mrows(A_), T.blen(m_) == mrows(A_), T.bat(m_, i_)),
+                                             mrow(mscatter(A_, where(m_), B_), i_) == mrow(B_, rank(m_, i_))),
+                                  [mrow(mscatter(A_, where(m_), B_), i_)]), ['mscatter'], 'numpy')
+axiom('mscatter.where.out', forall([A_, m_, B_, i_],
+                                   z3.Implies(z3.And(0 <= i_, i_ < mrows(A_), T.blen(m_) == mrows(A_), z3.Not(T.bat(m_, i_))),
+                                              mrow(mscatter(A_, where(m_), B_), i_) == mrow(A_, i_)),
+                                   [mrow(mscatter(A_, where(m_), B_), i_)]), ['mscatter'], 'numpy')
